@@ -17,6 +17,7 @@ CONSTANTS NRand,    \* number of random programs
 Reqs == IF DoReq THEN ndJsonDeserialize("c03_eval.ndjson") ELSE <<>>
 
 CONSTANT DoOpt    \* BOOLEAN: include the define / pure / drop / drop-labels family
+CONSTANT D1All    \* BOOLEAN: every depth-1 expression in all three contexts (FALSE: in one context chosen by Seed)
 
 VARIABLES kind,   \* "d1" | "skel" | "rnd" | "req" | "opt"
           idx,    \* index of a random program / request; the context number for "d1"; 0 for "skel"; index into DefVals for "opt"
@@ -56,6 +57,7 @@ Export(n) == IF n.k = "lit" THEN [k |-> "lit", v |-> n.v]
 Outcome(pr, rows) == [r \in 1..Len(rows) |-> Run(pr, EnvOf(rows[r][1], rows[r][2]))]
 
 Init == /\ \/ DoD1 /\ kind = "d1" /\ idx \in {1, 2, 3} /\ \E e \in D1Set : prog = << e >>
+              /\ (D1All \/ idx = ((HashN(prog[1]) + Seed) % 3) + 1)
            \/ DoSkel /\ kind = "skel" /\ prog \in SkelProgs /\ idx = 0
            \/ kind = "rnd" /\ idx \in 1..NRand /\ prog = <<>>
            \/ kind = "req" /\ idx \in 1..Len(Reqs) /\ prog = <<>>
